@@ -162,13 +162,39 @@ def s_module_naming(ctx):
     I.call(I.getattr(child, "__setattr__"), [SStr(p), param])
     I.call(I.getattr(root, "__setattr__"), [SStr(a), child])
     forward_raises = ctx.choose(2, "child forward raises") == 1
+    # the child is called either directly, or from the trace function of a control-flow body built by the real
+    # GraphBuilder.subgraph / build_graph (the op handed to the body belongs to the sub-builder)
+    in_subgraph = ctx.choose(2, "child called inside a subgraph body") == 1
+    twice = (not in_subgraph) and ctx.choose(2, "the child module is called twice (shared layer)") == 1
+    import onnx_ir as ir
+    graph.fields["opset_imports"] = {"": 21}
+    subgraphs = []
+
+    def m_graph(interp, *a, **k):
+        g = SObj(object, "subgraph")
+        g.fields.update(initializers={}, opset_imports=dict(k.get("opset_imports") or {}), outputs=[], inputs=list(k.get("inputs") or []),
+                        name=k.get("name"))
+        subgraphs.append(g)
+        return g
+    I.models[ir.Graph] = m_graph
 
     def f_root(op_):
         raise AssertionError
 
     def f_child(op_):
         raise AssertionError
-    I.models[f_root] = lambda interp, op_: interp.call(interp.getattr(child, "__call__"), [op_])
+
+    def m_root(interp, op_):
+        if not in_subgraph:
+            if twice:
+                interp.call(interp.getattr(child, "__call__"), [op_])
+            return interp.call(interp.getattr(child, "__call__"), [op_])
+
+        def body(op2):
+            raise AssertionError
+        interp.models[body] = lambda i2, op2: [i2.call(i2.getattr(child, "__call__"), [op2])] and []
+        return interp.call(interp.getattr(gb, "subgraph"), [body, [], []])
+    I.models[f_root] = m_root
 
     def m_child(interp, op_):
         if forward_raises:
@@ -185,7 +211,7 @@ def s_module_naming(ctx):
     ctx.check("C18.nn.module_call.scope_stack_balanced" + (".when_forward_raises" if forward_raises else ""),
               gb.fields["_scope_stack"] == [], "C18: Module.__call__ pops the scope also on exception")
     inits = graph.fields["initializers"]
-    ok = len(inits) == 1 and list(inits.values())[0] is param
+    ok = len(inits) == 1 and list(inits.values())[0] is param and (not in_subgraph or (len(subgraphs) == 1 and not subgraphs[0].fields["initializers"]))
     ctx.check("C18.nn.parameter.realized_exactly_once_in_the_root_graph", ok, CL_NAME)
     if not ok:
         return
@@ -200,7 +226,7 @@ def s_module_naming(ctx):
     if explicit_child or explicit_param:
         ctx.check("C18.nn.initializer_name_is_root_name_dot_state_dict_key.with_explicit_names", goal, CL_NAME)
     else:
-        ctx.check("C18.nn.initializer_name_is_root_name_dot_state_dict_key", goal, CL_NAME)
+        ctx.check("C18.nn.initializer_name_is_root_name_dot_state_dict_key" + (".module_called_in_a_subgraph_body" if in_subgraph else ""), goal, CL_NAME)
         ctx.check("C18.nn.state_dict_key_is_attribute_path", key == z3.Concat(a, z3.StringVal("."), p), CL_NAME)
     # idempotent realisation
     before = dict(inits)
